@@ -635,3 +635,74 @@ canary('c14-atom-len-unguarded', 'C14', ENCF, """        if atom_len > u16::MAX 
             return Err(EncodeError::AtomTooLarge { size: atom_len });
         }
 """, "", 'C14.4-cast')
+
+# ---- C06 ----
+canary('c06-index-unguarded', 'C06', CONN, "if complete_data.len() >= 2\n            && complete_data[0] == VERSION_TAG", "if complete_data[0] == VERSION_TAG", 'PANIC:')
+canary('c06-frag-len-check-removed', 'C06', CONN, """                if remaining.len() < header.num_atom_cache_refs as usize {
+                    return Err(Error::Protocol(format!(
+                        "Fragment header announces {} bytes of atom cache data, only {} bytes follow",
+                        header.num_atom_cache_refs,
+                        remaining.len()
+                    )));
+                }
+""", "", 'PANIC:')
+canary('c06-tick-returned', 'C06', CONN, """            if data.is_empty() {
+                trace!("Received tick (heartbeat), continuing...");
+                continue;
+            }""", """            if data.is_empty() {
+                trace!("Received tick (heartbeat), continuing...");
+                return Err(Error::Protocol("tick".to_string()));
+            }""", 'tick-returns')
+canary('c06-node-tick-removed', 'C06', CONN, """            if len == 0 {
+                trace!("Received tick (heartbeat), continuing...");
+                continue;
+            }
+
+            if len > MAX_MESSAGE_SIZE {
+                return Err(Error::MessageTooLarge {""", """            if len > MAX_MESSAGE_SIZE {
+                return Err(Error::MessageTooLarge {""", 'tick')
+canary('c06-marker-value', 'C06', CONN, "const DIST_FRAG_CONT: u8 = 70;", "const DIST_FRAG_CONT: u8 = 71;", 'CONST:')
+canary('c06-fresh-assembler', 'C06', CONN, """                if let Some(complete_data) = self.fragment_assembler.add_fragment(""", """                if let Some(complete_data) = FragmentAssembler::new().add_fragment(""", 'assembler')
+canary('c06-passthrough-slice', 'C06', CONN, "            let (control_term, message) = if !data.is_empty() && data[0] == PASS_THROUGH {", "            let (control_term, message) = if data[1] == PASS_THROUGH || data[0] == PASS_THROUGH {", 'PANIC:')
+
+# ---- C07 ----
+canary('c07-link-no-gate', 'C07', CONN, """    pub async fn link(&mut self, from_pid: &ExternalPid, to_pid: &ExternalPid) -> Result<()> {
+        if !self.is_connected() {
+            return Err(Error::InvalidState {
+                state: self.state(),
+            });
+        }
+""", """    pub async fn link(&mut self, from_pid: &ExternalPid, to_pid: &ExternalPid) -> Result<()> {
+""", 'write-before-connected')
+canary('c07-link-swapped', 'C07', CONN, """        let control = ControlMessage::Link {
+            from_pid: OwnedTerm::Pid(from_pid.clone()),
+            to_pid: OwnedTerm::Pid(to_pid.clone()),
+        };""", """        let control = ControlMessage::Link {
+            from_pid: OwnedTerm::Pid(to_pid.clone()),
+            to_pid: OwnedTerm::Pid(from_pid.clone()),
+        };""", 'TABLE:')
+canary('c07-len-off-by-one', 'C07', CONN, "                let total_len = 1 + control_encoded.len();\n", "                let total_len = control_encoded.len();\n", 'WIRE:')
+canary('c07-unlink-as-unlink', 'C07', CONN, """        let control = ControlMessage::UnlinkId {
+            id: unlink_id,
+            from_pid: OwnedTerm::Pid(from_pid.clone()),
+            to_pid: OwnedTerm::Pid(to_pid.clone()),
+        };""", """        let _ = unlink_id;
+        let control = ControlMessage::Unlink {
+            from_pid: OwnedTerm::Pid(from_pid.clone()),
+            to_pid: OwnedTerm::Pid(to_pid.clone()),
+        };""", 'TABLE:')
+canary('c07-monitor-payload', 'C07', CONN, """            reference: OwnedTerm::Reference(reference.clone()),
+        };
+
+        self.send_control_message(control, None).await
+    }
+
+    pub async fn demonitor(""", """            reference: OwnedTerm::Reference(reference.clone()),
+        };
+
+        self.send_control_message(control, Some(OwnedTerm::Nil)).await
+    }
+
+    pub async fn demonitor(""", 'TABLE:')
+canary('c07-mode-inverted', 'C07', CONN, ".map(|f| !f.has(DistributionFlags::DIST_HDR_ATOM_CACHE))", ".map(|f| !f.has(DistributionFlags::DIST_MONITOR))", 'mode-selection')
+canary('c07-passthrough-marker', 'C07', CONN, "                stream.write_u32(total_len as u32).await?;\n                stream.write_u8(PASS_THROUGH).await?;\n                stream.write_all(&control_encoded).await?;\n                stream.flush().await?;", "                stream.write_u32(total_len as u32).await?;\n                stream.write_u8(DIST_HEADER).await?;\n                stream.write_all(&control_encoded).await?;\n                stream.flush().await?;", 'WIRE:')
